@@ -46,7 +46,9 @@ static bool guarded(OpStat& st, const std::string& wit, F f)
     if (sigsetjmp(g_jmp, 1) == 0)
     {
         g_jmp_armed = 1;
+        __asm__ __volatile__("" ::: "memory"); // the monitored accesses must stay between arming and disarming
         f();
+        __asm__ __volatile__("" ::: "memory");
         g_jmp_armed = 0;
         return true;
     }
@@ -55,6 +57,28 @@ static bool guarded(OpStat& st, const std::string& wit, F f)
     return false;
 }
 
+static size_t heap_slack()
+{
+#if defined(__SANITIZE_ADDRESS__)
+    return 0;
+#else
+#if defined(__has_feature)
+#if __has_feature(address_sanitizer)
+    return 0;
+#endif
+#endif
+    static const size_t s = getenv("VH_EXACT_HEAP") ? 0 : 64;
+    return s;
+#endif
+}
+// true if the slack after a heap block of `bytes` bytes was modified
+static bool heap_overrun(const unsigned char* p, size_t bytes)
+{
+    for (size_t i = 0; i < heap_slack(); ++i)
+        if (p[bytes + i] != 0xc3)
+            return true;
+    return false;
+}
 struct Place
 {
     unsigned char* p;
@@ -81,10 +105,12 @@ static std::vector<Place> placements(size_t bytes, size_t align, std::vector<voi
             v.push_back({ AR.lo() + off, "near_lower_guard", false });
         }
     }
-    // exact-size heap block (red zones under ASan / valgrind)
+    // heap block: exact size under ASan / valgrind (their red zones are the monitor); otherwise followed by a
+    // canary slack that the caller checks (an overrun must not be able to corrupt the allocator and crash later)
     void* h = nullptr;
-    if (posix_memalign(&h, align < sizeof(void*) ? sizeof(void*) : align, bytes) == 0)
+    if (posix_memalign(&h, align < sizeof(void*) ? sizeof(void*) : align, bytes + heap_slack()) == 0)
     {
+        memset((unsigned char*)h + bytes, 0xc3, heap_slack());
         heap.push_back(h);
         v.push_back({ (unsigned char*)h, "exact_heap_block", true });
     }
@@ -190,6 +216,8 @@ static void plain(Rng& rng)
                             if (q)
                                 viol(ss, "byte_outside_range_modified", "{" + wit + ",\"distance_from_p\":" + std::to_string((long)(q - pl.p)) + "}");
                         }
+                        else if (heap_overrun(pl.p, BY))
+                            viol(ss, "byte_outside_range_modified", "{" + wit + "}");
                     }
                 }
             }
@@ -249,7 +277,7 @@ static void converting(Rng& rng)
             {
                 if (memcmp(pl.p, src, BY))
                     viol(st, "bytes_mismatch", "{" + wit + "}");
-                if (!pl.heap && AR.stray(pl.p, BY, 0xa5))
+                if ((!pl.heap && AR.stray(pl.p, BY, 0xa5)) || (pl.heap && heap_overrun(pl.p, BY)))
                     viol(st, "byte_outside_range_modified", "{" + wit + "}");
             }
         }
@@ -301,7 +329,7 @@ static void bools(Rng& rng)
             {
                 if (memcmp(pl.p, bs, N))
                     viol(st, "bytes_mismatch", "{" + wit + "}");
-                if (!pl.heap && AR.stray(pl.p, N, 0xa5))
+                if ((!pl.heap && AR.stray(pl.p, N, 0xa5)) || (pl.heap && heap_overrun(pl.p, N)))
                     viol(st, "byte_outside_range_modified", "{" + wit + "}");
             }
         }
@@ -360,7 +388,7 @@ static void complexes(Rng& rng, const char* prop)
             {
                 if (memcmp(pl.p, flat, BY))
                     viol(st, "bytes_mismatch", "{" + wit + "}");
-                if (!pl.heap && AR.stray(pl.p, BY, 0xa5))
+                if ((!pl.heap && AR.stray(pl.p, BY, 0xa5)) || (pl.heap && heap_overrun(pl.p, BY)))
                     viol(st, "byte_outside_range_modified", "{" + wit + "}");
             }
         }
